@@ -55,7 +55,7 @@ ALL_OPS = ["construct", "copy", "assign", "cast", "rplus", "rminus", "mutate", "
 # histories per (model, shape); chunk = trace lines per TLC process (split at history boundaries)
 TIERS = {
     "quick": dict(per_shape=3, per_model=36, depth=4, chunk=420, extra=False),
-    "thorough": dict(per_shape=30, per_model=300, depth=5, chunk=1500, extra=True),
+    "thorough": dict(per_shape=100, per_model=1000, depth=6, chunk=3000, extra=True),
 }
 
 ASSUME = [
@@ -99,7 +99,7 @@ def run_design_models(oc, workdir, depth):
     info = {}
     with cf.ThreadPoolExecutor(4) as ex:
         # -noGenerateSpecTE: a rejected spec mutant must not leave Manifold_TTrace_* files in spec/
-        futs = {ex.submit(V.run_tlc, "Manifold", model_cfg(workdir, "none", depth), workdir, None, 4, 1500, NOTE): "none"}
+        futs = {ex.submit(V.run_tlc, "Manifold", model_cfg(workdir, "none", depth), workdir, None, 4, 2400, NOTE): "none"}
         for b in SPEC_MUTANTS:
             futs[ex.submit(V.run_tlc, "Manifold", model_cfg(workdir, b, 4), workdir, None, 1, 900, NOTE)] = b
         for f in cf.as_completed(futs):
